@@ -142,6 +142,9 @@ func c19BinErrKind(e error) int64 {
 	if e == c19ErrSrc {
 		return 5
 	}
+	if e == io.ErrNoProgress {
+		return 9
+	}
 	m := e.Error()
 	switch {
 	case strings.Contains(m, "invalid range"):
@@ -573,10 +576,36 @@ func (v c19Tval) wantObs() []int64 {
 
 // ---- generators for the reader model -------------------------------------------------------------
 
+// c19EmptyRuns builds a read script: runs[i] consecutive (0, nil) reads, each run followed by one read of
+// chunk[i%len(chunk)] bytes.  binaryReaderReader/Seeker retry empty reads and give up (io.ErrNoProgress) at the
+// 100th consecutive one within a Bytes call.
+func c19EmptyRuns(runs []int, chunk []int) []int {
+	var s []int
+	for i, k := range runs {
+		for j := 0; j < k; j++ {
+			s = append(s, 0)
+		}
+		s = append(s, chunk[i%len(chunk)])
+	}
+	return s
+}
+
 func c19RandSched(r *Rng, n int) []int {
-	switch r.Intn(5) {
+	switch r.Intn(7) {
 	case 0:
 		return nil
+	case 5: // runs of empty reads around the give-up limit: 1..99 succeed, >= 100 is io.ErrNoProgress
+		runs := make([]int, 1+r.Intn(4))
+		for i := range runs {
+			runs[i] = []int{1, 2, 7, 50, 98, 99, 99, 100, 100, 101, 150, 199, 200, 201}[r.Intn(14)]
+		}
+		return c19EmptyRuns(runs, []int{1 + r.Intn(3), 1, 4})
+	case 6: // only runs that must succeed
+		runs := make([]int, 1+r.Intn(6))
+		for i := range runs {
+			runs[i] = []int{1, 3, 20, 99, 99}[r.Intn(5)]
+		}
+		return c19EmptyRuns(runs, []int{1, 2 + r.Intn(3)})
 	case 1: // one byte per Read
 		s := make([]int, n+2)
 		for i := range s {
@@ -730,6 +759,12 @@ func c19GenBinread(r *Rng, tier string, emit func(Case)) {
 		{c19BkPlain, exact, nil, false}, {c19BkPlain, exact, []int{1, 1, 1, 1, 1}, false}, {c19BkPlain, exact, []int{1, 0, 1}, false},
 		{c19BkPlain, exact, nil, true}, {c19BkPlain, neg, []int{1, 0, 2}, true}, {c19BkPlain, more, nil, false},
 		{c19BkSeeker, exact, nil, false}, {c19BkSeeker, exact, []int{1, 1, 1, 1, 1}, false}, {c19BkSeeker, neg, nil, true}, {c19BkSeeker, exact, []int{0}, false},
+		// runs of (0, nil) reads: 99 are retried, the 100th gives up, the counter restarts with every Bytes call
+		{c19BkPlain, exact, c19EmptyRuns([]int{99, 99, 99, 99, 99}, []int{1}), false},
+		{c19BkPlain, exact, c19EmptyRuns([]int{100, 0, 99}, []int{1, 2}), false},
+		{c19BkPlain, exact, c19EmptyRuns([]int{1, 101, 2}, []int{1}), true},
+		{c19BkSeeker, exact, c19EmptyRuns([]int{99, 100, 99}, []int{2, 1}), false},
+		{c19BkSeeker, exact, c19EmptyRuns([]int{250}, []int{1}), true},
 		{c19BkReaderAt, exact, nil, false}, {c19BkReaderAt, exact, nil, true}, {c19BkReaderAt, exact, []int{1}, false}, {c19BkReaderAt, zero, nil, false}, {c19BkReaderAt, neg, nil, false},
 		{c19BkHasBytes, exact, nil, false},
 	}
